@@ -110,30 +110,43 @@ def queries(ctx, sc):
 
 
 def make_cases(ctx, sc, impls, sections, queries_json, keys, select=None, walks=0, walk_len=8, cores=1,
-               max_edge_paths=None, rng=None):
+               max_edge_paths=None, rng=None, impl_caps=None):
     cases = []
     ids = sc.ids()
     base = sc.base()
     paths = list(sc.edge_paths(select))
+    rng.shuffle(paths)
     if max_edge_paths is not None and len(paths) > max_edge_paths:
-        rng.shuffle(paths)
         paths = paths[:max_edge_paths]
+    edge_only = list(paths)
+    walk_only = []
     for _ in range(walks):
         p = sc.random_walk(rng, walk_len)
         if p:
-            paths.append(p)
+            walk_only.append(p)
+    paths = edge_only + walk_only
     for impl in impls:
-        for p in paths:
+        ipaths = paths
+        cap = (impl_caps or {}).get(impl)
+        if cap is not None and len(edge_only) > cap:
+            ipaths = edge_only[:cap] + walk_only
+        for p in ipaths:
             if impl == "basicmutable" and any(e["ev"]["op"] == "snapshot" for e in p):
                 continue
+            if impl == "tagsoverlay" and any(e["ev"]["op"] not in ("addtag", "snapshot") or not e["ev"].get("ok", True) for e in p):
+                continue
+            secs = sections
+            if impl == "tagsoverlay":
+                # MutableTagsOverlayWorld documents that it does not update the search index
+                secs = [x for x in sections if x != "search"]
             cases.append({"id": len(cases), "impl": impl, "base": base, "keys": keys, "ids": ids,
-                          "queries": queries_json, "steps": [sc.step(e) for e in p], "sections": sections,
+                          "queries": queries_json, "steps": [sc.step(e) for e in p], "sections": secs,
                           "cores": cores, "scenario": sc.n})
     return cases, len(paths)
 
 
 def run_family(ctx, prop, scenarios, impls, sections, select=None, meta_rule="", level="model_checking",
-               assumptions=None, finish=True):
+               assumptions=None, finish=True, max_paths=None, impl_caps=None):
     """Common body of the MutableWorld family checks."""
     binary = ctx.go_build("vh-world")
     rng = random.Random(ctx.seed * 7919 + 13)
@@ -150,7 +163,8 @@ def run_family(ctx, prop, scenarios, impls, sections, select=None, meta_rule="",
         walks = ctx.pick(100, 3000)
         cases, npaths = make_cases(ctx, sc, impls, sections, qs, keys, select=select, walks=walks,
                                    walk_len=ctx.pick(8, 14), cores=ctx.pick(1, 3), rng=rng,
-                                   max_edge_paths=ctx.pick(900, None))
+                                   max_edge_paths=(max_paths or {}).get(n, ctx.pick(900, None)) if ctx.quick else None,
+                                   impl_caps=(impl_caps or {}).get(n) if ctx.quick else None)
         total_edges += len(sc.edges)
         total_paths += npaths
         if cases:
